@@ -1,14 +1,18 @@
 #!/bin/sh
 # Regenerates _CoqProject (file list by glob) and the coq_makefile Makefile, then builds
-# the requested targets (default: everything) as full .vo files.
+# the requested targets (default: everything) as full .vo files.  Serialised by a lock so that
+# concurrent checks do not race on the Makefile.
 set -e
 cd "$(dirname "$0")"
+mkdir -p ../.cache
+exec 9>../.cache/coqbuild.lock
+flock 9
 { cat _CoqProject.head; find gen model proofs props -name '*.v' | sort; } > _CoqProject.new
 if ! cmp -s _CoqProject.new _CoqProject 2>/dev/null; then
   mv _CoqProject.new _CoqProject
-  coq_makefile -f _CoqProject -o Makefile.coq >/dev/null
+  coq_makefile -f _CoqProject -o Makefile.coq >/dev/null 2>&1
 else
   rm -f _CoqProject.new
-  [ -f Makefile.coq ] || coq_makefile -f _CoqProject -o Makefile.coq >/dev/null
+  [ -f Makefile.coq ] || coq_makefile -f _CoqProject -o Makefile.coq >/dev/null 2>&1
 fi
-exec make -f Makefile.coq -j16 "$@"
+make -f Makefile.coq -j16 "$@"
